@@ -5,11 +5,11 @@ import CpModel.Finalize
 
     <tools> <page> <ct> <hcl> <hstream> <st> <body> <probe> <req>;<req>;…      hcl = N | <n> (handler's own Content-Length)
 
-  tools   letters of e(ncode) g(zip) t(etags) c(aching) x(expires) f(latten) s(tream), or `-`
-  page    `pt` (default template) | `pc:<hex>` (error_page.default returns these bytes)
+  tools   letters of e(ncode) g(zip) t(etags) c(aching) x(expires) f(latten) s(tream) b(= error_response raises), or `-`
+  page    `pt` (default template) | `pc:<hex>` (error_page.default returns these bytes) | `pi:<hex>/<hex>…` (… an iterator)
   ct      html | plain | json | octet
   st      - | s<code> | e<code> | r<code> | x | i
-  body    <K>:<chunk>,<chunk>…   K in B S N L G F X;  chunk = b<hex> | t<cp.cp…> | n<hex>/<hex>… | r
+  body    <K>:<chunk>,<chunk>…   K in B S N L G F X Y;  chunk = b<hex> | t<cp.cp…> | n<hex>/<hex>… | r
   probe   - | <prio>:<act>:<once>   act = e<code> | r<code> | x | w<hex> (rewrite body) | s<code>
   req     <method>,<ae>,<inm>,<im>,<ac>,<ranges>   ranges = N | E | a-b/a-b…
 
@@ -21,7 +21,7 @@ open CpModel CpModel.Finalize
 
 namespace Drv.C06
 
-def pages (custom : Option Bytes) : Pages :=
+def pages (custom : Option Body) : Pages :=
   { tmpl := fun _ => List.replicate 700 84
     custom := custom
     redir := fun _ => List.replicate 90 82
@@ -42,11 +42,15 @@ def parseTools (s : String) : Option Tools :=
     | 'x' => some { t with expires := true }
     | 'f' => some { t with flatten := true }
     | 's' => some { t with stream := true }
+    | 'b' => some { t with errFails := true }
     | _ => none) {}
 
-def parsePage (s : String) : Option (Option Bytes) :=
+def parsePage (s : String) : Option (Option Body) :=
   if s == "pt" then some none
-  else if s.startsWith "pc:" then (Proto.unhex? (s.drop 3).toString).map some
+  else if s.startsWith "pc:" then (Proto.unhex? (s.drop 3).toString).map (fun b => some (bytesBody b))
+  else if s.startsWith "pi:" then
+    (((s.drop 3).toString.splitOn "/").mapM fun x => Proto.unhex? (if x == "" then "-" else x)).map
+      (fun bs => some ⟨.iter, bs.map Chunk.bytes⟩)
   else none
 
 def parseCt (s : String) : Option CtBase :=
@@ -104,6 +108,7 @@ def parseShape (s : String) : Option Shape :=
     else if k == "G" then pure (.genV cs)
     else if k == "F" then pure (.fileV (concat cs))
     else if k == "X" then pure (.staticV (concat cs))
+    else if k == "Y" then pure (.fileObjV (concat cs))
     else none
   | _ => none
 
